@@ -127,10 +127,20 @@ fn write(
     buf: &[u8],
 ) -> std::io::Result<usize> {
     let initial_state = state.clone();
+    let mut delivered = false;
 
     for printable in state.strip_next(buf) {
         let possible = printable.len();
-        let written = raw.write(printable)?;
+        let written = match raw.write(printable) {
+            Ok(written) => written,
+            // Earlier output from `buf` was already accepted: report that progress like a
+            // short write, the error will show up again on the next call
+            Err(_) if delivered => 0,
+            Err(err) => {
+                *state = initial_state;
+                return Err(err);
+            }
+        };
         if possible != written {
             let divergence = &printable[written..];
             let offset = offset_to(buf, divergence);
@@ -139,6 +149,7 @@ fn write(
             state.strip_next(consumed).last();
             return Ok(offset);
         }
+        delivered = true;
     }
     Ok(buf.len())
 }
